@@ -18,8 +18,9 @@ Definition chunks_of (a : args) (i j : nat) : list (list N) :=
 (* ---- the property predicate itself ---------------------------------------------------------
    c14.chunk : [fmt; cfg; batch_size; variant] [input] [chunk boundaries] ++ outcome of the
                single-chunk run (5 groups: [status] [nrows; ncols] [schema] [rows] [batch_ok]).
-   S: the outcome under the given chunking is the outcome of the single-chunk run. *)
-Definition s_chunk (a : args) : list (list Z) := skipn 3 a.
+   S: the outcome under the given chunking is the outcome of the single-chunk run, and no batch
+   exceeds the configured batch size. *)
+Definition s_chunk (a : args) : list (list Z) := firstn 4 (skipn 3 a) ++ [[1%Z]].
 
 (* c14.sweep : [fmt; cfg; batch_size; variant] [input] [family; p; q; admissible cut positions (families 7-9)]
    -> [number of chunkings in the family] [first chunking whose outcome differs] [its outcome].
